@@ -210,7 +210,9 @@ func buildLines(tier string) []lineCase {
 	}
 	// lines that are not annotations (or are degenerate ones)
 	for _, t := range []string{"// text", "//", "// ", "//@X", "// @ X", "// email@x.y", "// @", "//  @X(a)", "//\t@X", "// @X()", "// @X(a)b",
-		"// @X(a,b)", "// @X(a,)", "// @X(a", "// @X a)", "// x @X(a)", "// @X(a) ", "// @X  two  spaces", "// @X\ttab desc", "// @Xé", "// @X(é)"} {
+		"// @X(a,b)", "// @X(a,)", "// @X(a", "// @X a)", "// x @X(a)", "// @X(a) ", "// @X  two  spaces", "// @X\ttab desc", "// @Xé", "// @X(é)",
+		// free text whose first or last character is a slash, or that looks like a comment itself
+		"// /users/{id} is the path", "// see https://example.com/api/", "// note /", "// // nested marker", "/// triple slash", "// a / b"} {
 		add(t, nil)
 	}
 	return out
@@ -411,7 +413,7 @@ func describe(o observed) string {
 
 // ---- blocks -------------------------------------------------------------------------------------------
 
-var blockKinds = []string{"// hello world", "//", "// @Foo(a) d", "// @Description the text", "// @Description", "//@X not an annotation", "// @Query(v, {name:\"n\"}) q"}
+var blockKinds = []string{"// hello world", "//", "// @Foo(a) d", "// @Description the text", "// @Description", "//@X not an annotation", "// @Query(v, {name:\"n\"}) q", "// /path/like/ text /"}
 
 func enumerateBlocks(maxLen int) [][]string {
 	var out [][]string
@@ -538,7 +540,7 @@ func Main(tier, replay string) {
 	}
 	blocks := enumerateBlocks(maxLen)
 	exploreBlocks(run, blocks)
-	run.Bound = fmt.Sprintf("every line of the bounded grammar (%d lines: 4 names x 6 values x 19 property literals x 3 separators x 12 descriptions + 21 non-annotation lines); every comment block of <= %d lines over %d line kinds (%d blocks)", len(lines), maxLen, len(blockKinds), len(blocks))
+	run.Bound = fmt.Sprintf("every line of the bounded grammar (%d lines: 4 names x 6 values x 19 property literals x 3 separators x 12 descriptions + 27 non-annotation lines); every comment block of <= %d lines over %d line kinds (%d blocks)", len(lines), maxLen, len(blockKinds), len(blocks))
 	run.Rule = "state = one comment line or block as written in a Go file; transition = go/parser + gast.MapDocListToCommentBlock + annotations.NewAnnotationHolder on it; validated = comparisons with the left-to-right string-aware reference parser (name, value, properties deep-equal, description, order, free text, description rule, malformed JSON5 => error)"
 	run.Assumptions = []string{"whitespace before the comma and the unbalanced-object case are not judged (statement silent)", "expected property objects are written by hand per literal, not computed by a JSON5 library"}
 	run.Finish()
